@@ -139,6 +139,15 @@ def make_args(it, con, fn, node):
     return out
 
 
+def _line_text(src, line, first):
+    """the text of a source line of the function under contract (an identity of an exit point that survives edits
+    elsewhere in the function, unlike its line offset)"""
+    try:
+        return " ".join(src.splitlines()[line - first].split())[:120]
+    except Exception:  # noqa: BLE001
+        return None
+
+
 def run_one_path(env, con, fn, ctx):
     it = Interp(ctx, env)
     it.top_contract = con
@@ -210,6 +219,7 @@ def run_one_path(env, con, fn, ctx):
                     match = c
                     break
             line = getattr(ctx, "raise_line", None)
+            ctx.exit_src = _line_text(src, line, first)
             line = (line - first) if isinstance(line, int) else None
             ctx.exit_rel = line
             if match is None:
@@ -227,6 +237,7 @@ def run_one_path(env, con, fn, ctx):
             return ("raise", cls.__name__)
         # normal exit
         el = getattr(ctx, "exit_line", None)
+        ctx.exit_src = _line_text(src, el, first)
         ctx.exit_rel = (el - first) if isinstance(el, int) else None
         for f in con.clause_list("ensures"):
             rr = eval_clause(it, f, ns_exit({"result": result}))
